@@ -43,6 +43,35 @@ unit(name="SrcLcp", props="property C03", file=SA_FILE, dialect="gensa",
                      fuel=["n + 1"],
                      theorem="RbV.Thm.GenSrcLcp.lcp_eq_model")])
 
+# `transform_text` and its helpers.  `T` (u8/u16/u32/u64 by the dispatch of `suffix_array`) is read at `u64` and
+# `num_traits::cast::<usize, T>` as the abstract `castT : Nat → Option Nat` (contract in the theorems: value-preserving
+# on everything below `alphabet.len() + sentinel_count`, which `sais_transform_width_fits` proves for the type the
+# dispatch selects); `Alphabet` = `Rs.BitSet` of its symbols, `RankTransform` = the `Rs.VecMap` of its ranks
+# (`RankTransform::new` is the translated `Gen.SrcAlphabet.rankNew`)
+SA_STRUCTS = {"Alphabet": [("symbols", "BitSet")], "RankTransform": [("ranks", "VecMap<u8>")]}
+SA_CAST = {"cast": dict(lean="castT", args=["usize"], ret="Option<T>")}
+
+unit(name="SrcTransform", props="property C03", file=SA_FILE, dialect="gensa", structs=SA_STRUCTS,
+     imports=["RbV.Gen.SrcAlphabet"],
+     functions=[dict(name="sentinel", lean="sentinel", header="fn sentinel(text: &[u8]) -> u8",
+                     params=[("text", "&[u8]")], ret="u8",
+                     theorem="RbV.Thm.GenSrcTransform.sentinel_eq_model"),
+                dict(name="sentinel_count", lean="sentinel_count", header="fn sentinel_count(text: &[u8]) -> usize",
+                     params=[("text", "&[u8]")], ret="usize",
+                     calls={"sentinel": dict(lean="sentinel", args=["&[u8]"], ret="u8")},
+                     theorem="RbV.Thm.GenSrcTransform.sentinel_count_eq_model"),
+                dict(name="transform_text", lean="transform_text",
+                     header="fn transform_text<T: Integer + Unsigned + NumCast + Copy + Debug>( text: &[u8], alphabet: &Alphabet, "
+                            "sentinel_count: usize, ) -> Vec<T>",
+                     aliases={"T": "u64"},
+                     params=[("text", "&[u8]"), ("alphabet", "&Alphabet"), ("sentinel_count", "usize")], ret="Vec<T>",
+                     abstract_fns=SA_CAST,
+                     path_calls={"RankTransform::new": dict(lean="RbV.Gen.SrcAlphabet.rankNew", args=["&Alphabet"],
+                                                            ret="RankTransform")},
+                     calls={"sentinel": dict(lean="sentinel", args=["&[u8]"], ret="u8")},
+                     locals={"s": "usize"},
+                     theorem="RbV.Thm.GenSrcTransform.transform_text_spec")])
+
 _SA = {}
 
 
@@ -68,7 +97,38 @@ def _sa_classes():
                 if vt != expected.elem or nt != cb.TInt("usize"):
                     self.err("`SmallInts::from_elem(%r, %r)` for %r" % (vt, nt, expected), e)
                 return "List.replicate %s %s" % (atom_(n), atom_(v)), expected
+            pc = self.spec.get("path_calls", {})
+            if path in pc:
+                # a translated function of another generated file (`imports` of the unit), called by path
+                f = pc[path]
+                if len(f["args"]) != len(e.args):
+                    self.err("`%s` called with %d arguments, the spec says %d" % (path, len(e.args), len(f["args"])), e)
+                parts = []
+                for a, at in zip(e.args, f["args"]):
+                    want = self.ty_of_text(at)
+                    sv, t = self.expr(a, code, want)
+                    if t != want:
+                        self.err("argument of `%s` has type %r, the spec says %r" % (path, t, want), a)
+                    parts.append(atom_(sv))
+                tv = self.tmp()
+                code.bind(tv, ("call", f["lean"] + "".join(" " + p_ for p_ in parts)))
+                return tv, self.ty_of_text(f["ret"])
+            if path == "Vec::with_capacity" and len(e.args) == 1:
+                if not isinstance(expected, cb.TSeq):
+                    self.err("`Vec::with_capacity` without a declared element type", e)
+                n, nt = self.expr(e.args[0], code, cb.TInt("usize"))      # evaluated (it can panic), no other effect
+                if nt != cb.TInt("usize"):
+                    self.err("`Vec::with_capacity(%r)`" % (nt,), e)
+                return "([] : %s)" % expected.lean(), expected
             return BaseF.call(self, e, code, expected)
+
+        def expr(self, e, code, expected=None):
+            if e.kind == "cast":
+                target = self.ty(e.ty)
+                if isinstance(target, cb.TInt) and not target.signed and isinstance(self.dry(e.e), cb.TBool):
+                    b, _ = self.expr(e.e, code, cb.TBool())           # `b as usize` of a `bool`
+                    return "(if %s then 1 else 0)" % b, target
+            return BaseF.expr(self, e, code, expected)
 
         def _mut_expr(self, e, decl, out):
             BaseF._mut_expr(self, e, decl, out)
@@ -108,12 +168,19 @@ def translate_unit(src, unit, fail):
         if n_found != 1:
             fail("%s: expected exactly one item `%s`, found %d (the translation spec in tools/rs2lean_gensa.py pins it)"
                  % (unit["file"], " ".join(item.split())[:120], n_found))
-    saved = cf.FnTranslatorX
+    saved, saved_tok = cf.FnTranslatorX, cb.tokenize
+
+    def tokenize_sa(text, base):
+        # a string literal continued with `\` + newline (the message of `assert!`): the tokenizer of rs2lean_cfbase.py has
+        # no rule for it (reported in docs/notes/GEN.md); same length, so positions stay right
+        return saved_tok(text.replace("\\\n", "  "), base)
     cf.FnTranslatorX = d["Translator"]
+    cb.tokenize = tokenize_sa
     try:
         text, snippets = cb.translate_unit(src, dict(unit, dialect="cf"), fail)
     finally:
         cf.FnTranslatorX = saved
+        cb.tokenize = saved_tok
     imports = ["import RbV.Basic.RsSemInt", "import RbV.Basic.RsSemGensa"] + ["import " + m for m in unit.get("imports", [])]
     text = text.replace("import RbV.Basic.RsSem\n", "import RbV.Basic.RsSem\n" + "\n".join(imports) + "\n", 1)
     text = text.replace("GENERATED by tools/rs2lean.py", "GENERATED by tools/rs2lean_gensa.py (dialect gensa)", 1)
